@@ -198,6 +198,27 @@ def determinism(nseeds=60):
     return n
 
 
+def replay_roundtrip(n=40):
+    """A run and the replay of its trace after a JSON round trip (what a replay file holds) are the same execution:
+    argument types (bytes / bytearray / str / int / None / lists) must survive the encoding."""
+    import json
+    from .gen import Gen
+    from .world import enc, dec, run_trace
+    from .branch_audit import world_digest
+    cnt = 0
+    for profile in ('DUPLEX', 'MISUSE', 'HDR', 'ADV', 'FLOW', 'UPGRADE'):
+        for sd in range(3000, 3000 + n):
+            g = Gen(sd, profile, [], overrides={'fork': 0.0, 'misuse': 0.3})
+            w = g.run()
+            a = world_digest(w, [])
+            ev = dec(json.loads(json.dumps(enc(w.trace))))
+            cfg = dec(json.loads(json.dumps(enc(g.cfg))))
+            w2 = run_trace(cfg, ev, [])
+            assert world_digest(w2, []) == a, 'replay of the encoded trace differs from the run (%s seed %d)' % (profile, sd)
+            cnt += 1
+    return cnt
+
+
 def main():
     print('hpack RFC 7541 vectors:', hpack_vectors())
     print('hpack differential blocks:', hpack_differential())
@@ -210,5 +231,6 @@ def main():
         assert b == 0, 'a what-if branch differs from the from-scratch replay of its trace (%s %s)' % (prop, profile)
         tot += c
     print('what-if branches equal to from-scratch replays of their traces:', tot)
+    print('runs equal to the replay of their JSON-encoded trace:', replay_roundtrip())
     print('selftest ok')
     return 0
